@@ -196,17 +196,17 @@ theorem parseOpcodes_indep (ctx : Ctx) (d : Bytes) (r : FrbRec) (regs regs' : Re
         cases c2 <;> rfl
 
 /-- `parseFunc` apart from the registers it hands on -/
-def frbObs (fs : FrbState) : Nat × Bool × List FuncDef := (fs.bpc, fs.tell, fs.funcs)
+def frbObs (fs : FrbState) : Nat × Bool × List FuncDef × Nat := (fs.bpc, fs.tell, fs.funcs, fs.declared)
 
 theorem parseFunc_indep (ctx0 : Ctx) (d : Bytes) (idx : Int) (fs fs' : FrbState) (h : frbObs fs = frbObs fs') :
     (parseFunc ctx0 d idx fs).map frbObs = (parseFunc ctx0 d idx fs').map frbObs := by
-  obtain ⟨b, t, rg, fn⟩ := fs
-  obtain ⟨b', t', rg', fn'⟩ := fs'
+  obtain ⟨b, t, rg, fn, dc⟩ := fs
+  obtain ⟨b', t', rg', fn', dc'⟩ := fs'
   simp only [frbObs, Prod.mk.injEq] at h
-  obtain ⟨hb, ht, hf⟩ := h
-  subst hb; subst ht; subst hf
+  obtain ⟨hb, ht, hf, hd⟩ := h
+  subst hb; subst ht; subst hf; subst hd
   unfold parseFunc
-  generalize readFrb ctx0 d idx = rr
+  generalize readFrb ctx0 d idx dc = rr
   cases rr with
   | error e => rfl
   | ok r =>
